@@ -144,7 +144,7 @@ func (ts *treeStorage) GetRoster(id RosterID) *Roster {
 	defer ts.Unlock()
 
 	for _, tree := range ts.trees {
-		if tree != nil && tree.Roster.ID.Equal(id) {
+		if tree != nil && tree.Roster != nil && tree.Roster.ID.Equal(id) {
 			return tree.Roster
 		}
 	}
